@@ -267,6 +267,12 @@ def m_str(interp, args, kwargs):
         return v
     if isinstance(v, (int, bool)) and not isinstance(v, Sym):
         return str(v)
+    if isinstance(v, Sym) and v.kind is STR:
+        return v   # str(s) is s for a str
+    if isinstance(v, Opaque):
+        h = interp.pack.models.get("str:" + v.tag)
+        if h:
+            return h(interp, v)
     return STR.fresh(interp.ctx, "str")
 
 
